@@ -221,6 +221,7 @@ package setec
 //@   ensures [C10 init.no-request-when-complete] (forall n string :: old(has(s.active.m, n)) ==> old(s.active.m[n]) != nil) ==> (net == old(net) && err == nil)
 //@   at call Get: assert [C10 init.fetch-only-missing] has(s.active.m, arg_name) && s.active.m[arg_name] == nil
 //@   at call sleepFor: assert [C10 init.pause-at-most-a-few-seconds] 0 < arg_d && arg_d < 8000000000
+//@   at call Err: assert [C10 init.gives-up-only-when-the-callers-context-ends] arg_ctx == ctx
 //@   loop 0
 //@     invariant [backoff-bound] 0 < retryWait && retryWait < 8000000000
 //@     invariant [state] partialOK(s) && s.client != nil && ctx != nil && net >= old(net)
